@@ -388,4 +388,35 @@ theorem core_overflow (cf : Config) (args : List Int) (pr : CProg) (hw : 2 ≤ c
   · have := (r.exec nh).1; simpa [coreInit] using this
   · have := (r.exec nh).2; simpa [coreInit] using this
 
+/-- a conclusive source run stays the same at every larger stack size -/
+theorem srcRun_stack_mono (w S S' : Nat) (ck : Bool) (hS : S ≤ S') (fuel : Nat) (args : List Int) (pr : CProg)
+    (r : Env × List Ev × Res) (h : srcRun ⟨w, S, ck⟩ fuel args pr = some r) :
+    srcRun ⟨w, S', ck⟩ fuel args pr = some r :=
+  exec_room_mono _ _ _ _ _ _ _ _ _ _ _ (by
+    show S * w + args.length * w + w ≤ S' * w + args.length * w + w
+    have := Nat.mul_le_mul_right w hS; omega) h
+
+/-- however a statement list without `try` is left — falling through, `return`, `return e` — after any
+number of loop iterations and calls inside it, the frame pointer, `ap` and all memory at and above the
+frame pointer are what they were when it was entered -/
+theorem core_frame_restored {p : Prog} {ck : Bool} {B : Nat} {fa : FAddr} {fns : List FDecl}
+    (lib : Placed p B) (fok : FnsOK p ck B fa fns) (fuel F D ra : Nat) (hra : ra < 256 ^ p.w)
+    (s : S) (Γ : Gam) (env : Env) (pc o : Nat) (m : Mem) (env' : Env) (tr : List Ev) (res : Res)
+    (hpl : PlacedAt p pc (cS (cxOf p ck B) fa Γ pc o s))
+    (hB : pc + (cS (cxOf p ck B) fa Γ pc o s).length ≤ B)
+    (hinv : SInv p Γ env m F D o ra) (hd : Disj p.w Γ) (hwf : wfS (Γ.map Prod.fst) s = true)
+    (hpk : pkS p.w o s ≤ D) (ho : p.w ≤ o) (hnt : noTry s = true)
+    (hex : exec (256 ^ p.w) (8 * p.w) fns p.w fuel D o env s = some (env', tr, res))
+    (hres : res = .norm ∨ res = .returned ∨ ∃ v, res = .retv v) :
+    ∃ st', Reach (sphinx p) ⟨pc, m⟩ tr st' ∧ Keep p.w m st'.mem F ∧ st'.mem.readLE p.w p.w = F ∧
+      (res = .norm → st'.pc = pc + (cS (cxOf p ck B) fa Γ pc o s).length) ∧ (res ≠ .norm → st'.pc = ra) := by
+  have hc := cS_ok lib fok fuel F D ra hra s Γ env pc o m env' tr res hpl hB hinv hd hwf hpk ho hex
+    (by rcases hres with h | h | ⟨v, h⟩ <;> subst h <;> intro h <;> cases h) (Or.inl hnt)
+  obtain ⟨st', r, hp⟩ := hc.2 (by rcases hres with h | h | ⟨v, h⟩ <;> subst h <;> simp)
+  have hfp := hinv.fr.fp
+  rcases hres with h | h | ⟨v, h⟩ <;> subst h <;> simp only [Post] at hp
+  · exact ⟨st', r, hp.2.2, (by rw [hp.2.2.fp]; exact hfp), fun _ => hp.1, fun h => absurd rfl h⟩
+  · exact ⟨st', r, hp.2, (by rw [hp.2.fp]; exact hfp), fun h => (by cases h), fun _ => hp.1⟩
+  · exact ⟨st', r, hp.2.1, (by rw [hp.2.1.fp]; exact hfp), fun h => (by cases h), fun _ => hp.1⟩
+
 end HidVerif.Core
